@@ -886,7 +886,10 @@ def run_history(base, hist, state_oracle=True, info=None):  # noqa: C901, PLR091
         info["traces"] = traces
         return [(sig, f"{where} raised {type(e).__name__}: {str(e)[:140]}")]
     apply_model(m, op, q)
-    info["canon"] = canon(q) + " | " + m.key()  # merged only when the real state AND the model's prediction coincide
+    # merged only when the real state AND the model's prediction coincide — and the object has the same provenance: a
+    # pickled / copied pipeline equals the original in every visible field but differs in hidden state (weak back-references
+    # of its functions, cached properties), so it must be explored in its own right
+    info["canon"] = canon(q) + " | " + m.key() + _provenance(hist)
     info["model"] = m
     if callable(state_oracle):
         state_oracle = state_oracle(info["canon"])
@@ -932,6 +935,11 @@ def run_history(base, hist, state_oracle=True, info=None):  # noqa: C901, PLR091
         traces += 3
     info["traces"] = traces
     return res
+
+
+def _provenance(hist) -> str:
+    kinds = sorted({op[0] for op in hist if op[0] in ("pickle", "copy")})
+    return " | via:" + ",".join(kinds) if kinds else ""
 
 
 def run_case(case):
